@@ -92,6 +92,24 @@ class Session(object):
             def _cw_init(cw, tempstorage, buffersize=cb):
                 orig_init(cw, tempstorage, buffersize)
             _compound.CompoundWriter.__init__ = _cw_init
+        from whoosh import columns as _columns
+        self._vb_init = _columns.VarBytesColumn.__dict__["__init__"]
+        oc = getattr(cfg, "offcut", 32768)
+        if oc != 32768:
+            orig_vb = self._vb_init
+
+            def _vb_init(col, allow_offsets=True, write_offsets_cutoff=oc):
+                orig_vb(col, allow_offsets, write_offsets_cutoff)
+            _columns.VarBytesColumn.__init__ = _vb_init
+        from whoosh.matching import combo as _combo
+        self._au_init = _combo.ArrayUnionMatcher.__dict__["__init__"]
+        ap = getattr(cfg, "aupart", 2048)
+        if ap != 2048:
+            orig_au = self._au_init
+
+            def _au_init(m, submatchers, doccount, boost=1.0, scored=True, partsize=ap):
+                orig_au(m, submatchers, doccount, boost=boost, scored=scored, partsize=partsize)
+            _combo.ArrayUnionMatcher.__init__ = _au_init
         self.model = M.ModelIndex(cfg)
         self.stats = {}
         self.known_hits = {}
@@ -138,6 +156,10 @@ class Session(object):
             gc.collect()
             from whoosh.filedb import compound as _compound
             _compound.CompoundWriter.__init__ = self._cw_init
+            from whoosh import columns as _columns
+            _columns.VarBytesColumn.__init__ = self._vb_init
+            from whoosh.matching import combo as _combo
+            _combo.ArrayUnionMatcher.__init__ = self._au_init
             if self.real_dir is None:
                 seams.uninstall()
             else:
